@@ -333,6 +333,20 @@ def _trace0(body, x, through_casts=True, extra_transparent=(), max_steps=64):
                         sub = _trace0(body, op, through_casts, extra_transparent, max_steps - 1)
                         return Trace(sub.root, sub.fields + rest, sub.variants + variants, steps + sub.steps, casts + sub.casts)
             return Trace(("multi", l, body.local_name(l), defs), fields, variants, steps, casts)
+        # a local that is a COPY of something and is then written through a field projection (`let mut h = msg.header; h.wnd_size = x;`) is no longer
+        # that something: when the path being followed overlaps a partial write, stop here with the copy and the partial writes as its definitions
+        if isinstance(d, Stmt) and d.rv.kind == "use" and not getattr(d, "is_tracing", False):
+            pws = [w for w in body.defs()[1].get(l, ()) if not getattr(w, "is_tracing", False)]
+            if pws:
+                mine = [f_ for f_ in fields if not f_.startswith("tuple.")]
+                hit = []
+                for w in pws:
+                    wf, _wv, _wu = place_fields(body, w.place if isinstance(w, Stmt) else w.dest)
+                    k = min(len(wf), len(mine))
+                    if wf[:k] == mine[:k]:
+                        hit.append(w)
+                if hit:
+                    return Trace(("multi", l, body.local_name(l), [d] + hit), fields, variants, steps, casts)
         steps.append(d)
         if isinstance(d, Stmt):
             rv = d.rv
